@@ -1,13 +1,25 @@
 """Dispatch of property ids to the modules that decide them."""
 from vlib import ToolError, log
 import props_seq
+import props_more
 
 SEQ = {"C01", "C02", "C05", "C06", "C07", "C08", "C14", "C15", "C19"}
+WIRE = {"C09", "C10", "C11", "C12", "C13"}
+SRV = {"C17", "C18"}
+CONC = {"C03", "C04", "C16"}
 
 
 def dispatch(pid, tier, seed, replay):
     if pid in SEQ:
         rc = props_seq.run(pid, tier, seed, replay)
+    elif pid in WIRE:
+        rc = props_more.run_wire(pid, tier, seed, replay)
+    elif pid in SRV:
+        rc = props_more.run_srv(pid, tier, seed, replay)
+    elif pid == "C20":
+        rc = props_more.run_c20(pid, tier, seed, replay)
+    elif pid in CONC:
+        rc = props_more.run_conc(pid, tier, seed, replay)
     else:
         raise ToolError("no check registered for %s" % pid)
     log("RESULT property=%s tier=%s exit=%d" % (pid, tier, rc))
